@@ -312,7 +312,8 @@ pub fn explore<S: Scenario>(sc: &S, lim: &Limits, seed_perm: u64) -> Report {
             deepest = visited.get(fp).map(|e| (*fp, e.1));
         }
         let secs = tl.elapsed().as_secs_f64();
-        layer_rate = if fl > 0 { secs / fl as f64 * 1.15 } else { 0.0 };
+        // the estimate is only meaningful once a layer saturates the worker threads
+        layer_rate = if fl >= 8 * rayon::current_num_threads() { secs / fl as f64 * 1.15 } else { 0.0 };
         eprintln!(
             "[{}] depth {} new_states {} total_states {} transitions {} layer {:.1}s total {:.1}s",
             sc.name(),
